@@ -272,3 +272,5 @@ func (v Violation) Sig() string {
 	}
 	return s
 }
+
+func sortStrings(xs []string) { sort.Strings(xs) }
